@@ -4,11 +4,12 @@ namespace DustVerif.Wire
 open Outcome
 
 /-! ### dispatch and loop -/
-theorem decodeSub_guarded_np (id fl len : Nat) (le : Bool) (v : List Nat) :
-    decodeSub true id fl len le v ≠ .panic := by
+theorem decodeSub_guarded_np (c : Cfg) (hd : c.d5 = true) (id fl len : Nat) (le : Bool) (v : List Nat) :
+    decodeSub c id fl len le v ≠ .panic := by
   unfold decodeSub
+  rw [hd]
   by_cases h0 : id = 0x06
-  · rw [if_pos h0]; exact ackNackRead_np _ _ _
+  · rw [if_pos h0]; exact ackNackRead_np _ _ _ _
   rw [if_neg h0]
   by_cases h1 : id = 0x15
   · rw [if_pos h1]; exact dataRead_np _ _ _ _
@@ -17,7 +18,7 @@ theorem decodeSub_guarded_np (id fl len : Nat) (le : Bool) (v : List Nat) :
   · rw [if_pos h2]; exact dataFragRead_np _ _ _ _
   rw [if_neg h2]
   by_cases h3 : id = 0x08
-  · rw [if_pos h3]; exact gapRead_np _ _
+  · rw [if_pos h3]; exact gapRead_np _ _ _
   rw [if_neg h3]
   by_cases h4 : id = 0x07
   · rw [if_pos h4]; exact heartbeatRead_np _ _ _
@@ -44,11 +45,12 @@ theorem decodeSub_guarded_np (id fl len : Nat) (le : Bool) (v : List Nat) :
   · rw [if_pos h11]; simp
   rw [if_neg h11]; simp
 
-theorem decodeSub_false_panic (id fl len : Nat) (le : Bool) (v : List Nat)
-    (h : decodeSub false id fl len le v = .panic) : id = 0x12 ∧ nackFragRead false le v = .panic := by
+theorem decodeSub_false_panic (c : Cfg) (hd : c.d5 = false) (id fl len : Nat) (le : Bool) (v : List Nat)
+    (h : decodeSub c id fl len le v = .panic) : id = 0x12 ∧ nackFragRead false le v = .panic := by
   unfold decodeSub at h
+  rw [hd] at h
   by_cases h0 : id = 0x06
-  · rw [if_pos h0] at h; exact absurd h (ackNackRead_np _ _ _)
+  · rw [if_pos h0] at h; exact absurd h (ackNackRead_np _ _ _ _)
   rw [if_neg h0] at h
   by_cases h1 : id = 0x15
   · rw [if_pos h1] at h; exact absurd h (dataRead_np _ _ _ _)
@@ -57,7 +59,7 @@ theorem decodeSub_false_panic (id fl len : Nat) (le : Bool) (v : List Nat)
   · rw [if_pos h2] at h; exact absurd h (dataFragRead_np _ _ _ _)
   rw [if_neg h2] at h
   by_cases h3 : id = 0x08
-  · rw [if_pos h3] at h; exact absurd h (gapRead_np _ _)
+  · rw [if_pos h3] at h; exact absurd h (gapRead_np _ _ _)
   rw [if_neg h3] at h
   by_cases h4 : id = 0x07
   · rw [if_pos h4] at h; exact absurd h (heartbeatRead_np _ _ _)
@@ -84,7 +86,8 @@ theorem decodeSub_false_panic (id fl len : Nat) (le : Bool) (v : List Nat)
   · rw [if_pos h11] at h; simp at h
   rw [if_neg h11] at h; simp at h
 
-theorem decodeLoop_guarded_np (fuel : Nat) (v : List Nat) : decodeLoop true fuel v ≠ .panic := by
+theorem decodeLoop_guarded_np (c : Cfg) (hd : c.d5 = true) (fuel : Nat) (v : List Nat) :
+    decodeLoop c fuel v ≠ .panic := by
   induction fuel generalizing v with
   | zero => simp [decodeLoop]
   | succ k ih =>
@@ -97,13 +100,23 @@ theorem decodeLoop_guarded_np (fuel : Nat) (v : List Nat) : decodeLoop true fuel
       · simp at h
       · split at h
         · split at h
-          · simp at h
-          · simp at h
-          · rename_i hrec
-            exact ih _ hrec
-        · exact ih _ h
-        · rename_i hs
-          exact decodeSub_guarded_np _ _ _ _ _ hs
+          · split at h
+            · simp at h
+            · simp at h
+            · rename_i hrec
+              exact ih _ hrec
+          · exact ih _ h
+          · rename_i hs
+            exact decodeSub_guarded_np c hd _ _ _ _ _ hs
+        · split at h
+          · split at h
+            · simp at h
+            · simp at h
+            · rename_i hrec
+              exact ih _ hrec
+          · exact ih _ h
+          · rename_i hs
+            exact decodeSub_guarded_np c hd _ _ _ _ _ hs
     · simp at h
 
 theorem suffix_lift (hdr rest : List Nat) (n : Nat) (Q : Nat → List Nat → Prop)
@@ -113,9 +126,10 @@ theorem suffix_lift (hdr rest : List Nat) (n : Nat) (Q : Nat → List Nat → Pr
   refine ⟨hdr ++ rest.take n ++ pre, fl, l0, l1, r, ?_, hq⟩
   rw [List.append_assoc, List.append_assoc, ← he, List.take_append_drop]
 
-/-- a panic of the as-is submessage loop is caused by a NACK_FRAG header somewhere in the input whose
-    fragment-number set meets `FragSetPanics` -/
-theorem decodeLoop_false_panic (fuel : Nat) (v : List Nat) (h : decodeLoop false fuel v = .panic) :
+/-- a panic of the submessage loop of the first delivery's tree (no D5 fix, parsers handed the whole rest) is
+    caused by a NACK_FRAG header somewhere in the input whose fragment-number set meets `FragSetPanics` -/
+theorem decodeLoop_false_panic (c : Cfg) (hd : c.d5 = false) (he : c.ext = false) (fuel : Nat) (v : List Nat)
+    (h : decodeLoop c fuel v = .panic) :
     ∃ pre fl l0 l1 rest, v = pre ++ 0x12 :: fl :: l0 :: l1 :: rest ∧
       FragSetPanics (decide (fl % 2 = 1)) (rest.drop 16) := by
   induction fuel generalizing v with
@@ -124,10 +138,11 @@ theorem decodeLoop_false_panic (fuel : Nat) (v : List Nat) (h : decodeLoop false
     unfold decodeLoop at h
     split at h
     · rename_i id fl l0 l1 rest
-      simp only [] at h
+      simp only [he] at h
       split at h
       · simp at h
-      · split at h
+      · simp only [Bool.false_eq_true, if_false] at h
+        split at h
         · split at h
           · simp at h
           · simp at h
@@ -137,7 +152,7 @@ theorem decodeLoop_false_panic (fuel : Nat) (v : List Nat) (h : decodeLoop false
         · exact suffix_lift [id, fl, l0, l1] rest _ (fun fl r => FragSetPanics (decide (fl % 2 = 1)) (r.drop 16))
             (ih _ h)
         · rename_i hs
-          obtain ⟨hid, hp⟩ := decodeSub_false_panic _ _ _ _ _ hs
+          obtain ⟨hid, hp⟩ := decodeSub_false_panic c hd _ _ _ _ _ hs
           subst hid
           exact ⟨[], fl, l0, l1, rest, by simp, nackFragRead_false_panic _ _ hp⟩
     · simp at h
